@@ -115,3 +115,47 @@ let () =
     let a = t_crs t in let p = t_crs t in let r = t_crs t in
     let x = t_list t t_vec in
     if AmgBlock.coarse_inverse_ok sc scale a p r x then "OK" else "FAIL direct solver is not the inverse of s*R*A*P")
+
+(* ---------------------------------------------------------------- hierarchies built entirely inside the model
+   amgfull <coarsening> <ce> <dc> <ml> <policy> A <nscript> (dump | rebuild A')*
+     <policy> = aggregation:          <eps2> <block_size> <s = (float)(1/over_interp)>
+                smoothed_aggregation: <k> <eps2 of level 0..k-1> <block_size> <relax> <c23>
+                smoothed_aggr_emin:   <k> <eps2 of level 0..k-1> <block_size>
+                ruge_stuben:          <eps_strong> <eps_trunc> <do_trunc>
+   AmgFull.amg_init_full: the transfer operators of every level come from Coarsen.coarsen_step (one
+   thread); nothing of the implementation's output is an input.  Prints what the dump of
+   harness/amg_driver.hpp prints. *)
+let zeros n = List.init n (fun _ -> box (parse_q "0"))
+let show_ldescs (ls : Amg.ldesc list) = show_dump (AmgBlock.show_hier sc ls)
+
+let () =
+  reg "amgfull" (fun t ->
+    let kind = t_s t in
+    let ce = t_i t in let dc = t_i t <> 0 in let ml = t_i t in
+    let pol = (match kind with
+      | "aggregation" -> let e2 = t_q t in let bs = t_i t in let s = t_q t in Coarsen.PolAggregation (e2, bs, s)
+      | "smoothed_aggregation" -> let es = t_list t t_q in let bs = t_i t in let relax = t_q t in let c23 = t_q t in
+        Coarsen.PolSA (es, bs, relax, c23)
+      | "smoothed_aggr_emin" -> let es = t_list t t_q in let bs = t_i t in Coarsen.PolEmin (es, bs)
+      | "ruge_stuben" -> let es = t_q t in let et = t_q t in let dt = t_i t <> 0 in Coarsen.PolRS (es, et, dt)
+      | k -> failwith ("bad coarsening " ^ k)) in
+    let a = t_crs t in
+    if List.length a.Crs.rows <> a.Crs.ncols then raise (Model_exc "logic_error");
+    (* vq::Q default-constructs to 0: scratch arrays of the coarsening hold zeros; level sizes never
+       exceed the size of the finest matrix *)
+    let n = List.length a.Crs.rows in
+    let junk = (fun _ -> zeros n) and junkf = (fun _ -> []) in
+    let cop = AmgFull.policy_cop sc pol in
+    let descs = ref (match AmgFull.amg_init_full sc ce dc ml 1 junk junkf pol a with
+        | AmgFull.FullOk ls -> ls
+        | AmgFull.FullPrecond -> raise (Model_exc "runtime_error")
+        | AmgFull.FullOob -> raise (Model_exc "MODEL-OOB")) in
+    let ns = t_i t in
+    let out = ref [] in
+    for _ = 1 to ns do
+      (match t_s t with
+       | "dump" -> out := show_ldescs !descs :: !out
+       | "rebuild" -> let a2 = t_crs t in descs := Amg.amg_rebuild sc cop !descs a2; out := "ok" :: !out
+       | cmd -> failwith ("bad script command " ^ cmd))
+    done;
+    String.concat " ; " (List.rev !out))
